@@ -358,7 +358,17 @@ pub fn one_case(ctx: &Ctx, case: u64, l: &mut Local) {
                 bytes.push(*r.pick(&[0u8, b'}', 0xFF, 0x80, b' ']));
             }
             let seg = b64e(&bytes);
-            let good_h = b64e(b"{\"alg\":\"ES256\"}");
+            let good_h = if r.chance(40) {
+                // header whose alg (or typ / kid) holds multi-byte characters at every small byte offset
+                let a = *r.pick(&["ES2\u{e9}", "non\u{e9}", "\u{e9}\u{e9}", "ES25\u{1f600}", "E\u{1f600}", "\u{1f600}", "none\u{e9}", "HS2\u{20ac}6", "", "NONE", "nOnE"]);
+                match r.below(3) {
+                    0 => b64e(json!({"alg": a}).to_string().as_bytes()),
+                    1 => b64e(json!({"alg": "ES256", "typ": a}).to_string().as_bytes()),
+                    _ => b64e(json!({"alg": a, "kid": a, "typ": a}).to_string().as_bytes()),
+                }
+            } else {
+                b64e(b"{\"alg\":\"ES256\"}")
+            };
             let good_p = b64e(b"{\"iss\":\"i\",\"exp\":4000000000}");
             let jwt = match r.below(3) {
                 0 => format!("{good_h}.{seg}.AAAA"),
@@ -861,7 +871,9 @@ pub fn one_case(ctx: &Ctx, case: u64, l: &mut Local) {
                         }
                         // narrow: next round's holder is built from a partial presentation
                         let narrow = gen::gen_selection(&mut r, &s.u, gen::SelKind::RandomSparse);
-                        if let Outcome::Ok(np) = api::present(&mut h, &narrow, None) {
+                        let after = api::present(&mut h, &narrow, None);
+                        p.judge("create_presentation(after a refused call)", &after, &|| json!({"claims": s.u, "selection": narrow, "history": api::history()}));
+                        if let Outcome::Ok(np) = after {
                             current = np;
                         }
                     }
